@@ -804,5 +804,40 @@ theorem validGroups_nil : ValidGroups [] := by
   constructor <;> intro n1 ms1 n2 ms2 x h1 <;> simp at h1
 
 
+theorem get?_filter_side (side : String → Bool) (g : GroupsD) (n : String) :
+    AL.get? (g.filter (fun p => side p.1)) n = if side n = true then AL.get? g n else none := by
+  induction g with
+  | nil => simp
+  | cons p r ih =>
+    obtain ⟨n0, ms0⟩ := p
+    by_cases hs : side n0 = true
+    · simp only [List.filter_cons, hs, if_true, AL.get?_cons]
+      by_cases he : n0 = n
+      · subst he; simp [hs]
+      · simp only [he, if_false]; exact ih
+    · have hs' : side n0 = false := by simpa using hs
+      simp only [List.filter_cons, hs', Bool.false_eq_true, if_false, AL.get?_cons]
+      by_cases he : n0 = n
+      · subst he; simp [hs', ih]
+      · simp only [he, if_false]; exact ih
+
+theorem lastGroupOf_isSome_iff (side : String → Bool) (g : GroupsD) (x : String) :
+    (lastGroupOf side g x).isSome = true ↔ ∃ G, IsGroupOf side g x G := by
+  unfold lastGroupOf IsGroupOf
+  constructor
+  · intro h
+    cases hl : lastOf (g.filter fun p => side p.1) x with
+    | none => simp [hl] at h
+    | some n =>
+      obtain ⟨ms, hm, hx⟩ := lastOf_some hl
+      simp only [List.mem_filter] at hm
+      exact ⟨n, ms, hm.1, hm.2, hx⟩
+  · rintro ⟨G, ms, hm, hs, hx⟩
+    cases hl : lastOf (g.filter fun p => side p.1) x with
+    | some n => simp
+    | none =>
+      exact absurd hx (lastOf_none hl G ms (by simp [List.mem_filter, hm, hs]))
+
+
 end Kern
 end DefconModel
